@@ -97,6 +97,12 @@ META["C09"] = dict(
   note="Trusted: rsync/diff of files, gopkg.in/yaml.v2 as the independent spec reader, genny at the pinned version from the module cache.",
   technique="exhaustive regeneration and byte comparison (translation validation) + property-based testing (rapid) of generator invocation invariance")
 
+META["C08"] = dict(
+  text="Model-based stateful property test of the HDF5 layer over a pure-Go stand-in for libhdf5: generated Create/Write/WriteSlice/Load histories against a map model with both the raw dataset bytes and the API result compared after every step, selection arithmetic enumerated exhaustively for small extents, a lock-state probe at every library entry, and concurrent callers under the race detector (thorough). One recorded finding (Go int/uint width) is excluded for values only. Exploration; the stand-in is the trusted base.",
+  design_ref="DESIGN.md sections 2.3 and 4, C08",
+  note="Trusted base: /verif/fakehdf5 (about 500 lines, selection logic self-checked against nested loops in the same run). Not covered: the real libhdf5 ABI.",
+  technique="model-based property testing (rapid) over an HDF5 stand-in, exhaustive enumeration of selection helpers, lock-state probe, race detector")
+
 import os, sys
 sys.path.insert(0, os.path.dirname(os.path.abspath(__file__)))
 from checks_config import CHECKS
